@@ -104,4 +104,40 @@ func addEnvIntrinsics(m map[string]intrinsic) {
 		}
 		return []Value{IfaceV{}}
 	}
+	// fslock (flock(2) on dir/LOCK): the lock always succeeds and excludes; calls are trace events "flock:<op>"
+	m["github.com/dolthub/fslock.New"] = func(p *Path, fn *ssa.Function, a []Value, pos token.Pos, caller *ssa.Function) []Value {
+		lt := fn.Signature.Results().At(0).Type().(*types.Pointer).Elem()
+		return []Value{Ptr{Kind: PCell, Cell: p.newCell(lt)}, IfaceV{}}
+	}
+	flock := func(op string) intrinsic {
+		return func(p *Path, fn *ssa.Function, a []Value, pos token.Pos, caller *ssa.Function) []Value {
+			p.trace = append(p.trace, "flock:"+op)
+			return []Value{IfaceV{}}
+		}
+	}
+	m["(*github.com/dolthub/fslock.Lock).Lock"] = flock("lock")
+	m["(*github.com/dolthub/fslock.Lock).TryLock"] = flock("lock")
+	m["(*github.com/dolthub/fslock.Lock).LockWithTimeout"] = flock("lock")
+	m["(*github.com/dolthub/fslock.Lock).LockWithContext"] = flock("lock")
+	m["(*github.com/dolthub/fslock.Lock).Unlock"] = flock("unlock")
+	m["(*github.com/dolthub/fslock.Lock).Close"] = flock("close")
+	// wall clock: an arbitrary instant (seconds since year 1 in ext, no monotonic reading)
+	m["time.Now"] = func(p *Path, fn *ssa.Function, a []Value, pos token.Pos, caller *ssa.Function) []Value {
+		if p.tolerant > 0 {
+			panic(tolerantFail{"time.Now in package initialiser"})
+		}
+		p.envNondet = true
+		c := p.ctx
+		ext := p.fresh("env_now", BVSort(64))
+		p.assume(c.SLE(c.BV(64, 0), ext))
+		p.assume(c.SLT(ext, c.BV(64, 1<<40)))
+		return []Value{StructV{F: []Value{IntV{T: c.BV(64, 0)}, IntV{T: ext}, Ptr{Kind: PNil}}}}
+	}
+	// elapsed time is only ever fed to latency statistics in the code under test: zero
+	since := func(p *Path, fn *ssa.Function, a []Value, pos token.Pos, caller *ssa.Function) []Value {
+		return []Value{IntV{T: p.ctx.BV(64, 0)}}
+	}
+	m["time.Since"] = since
+	m["time.Until"] = since
+	m["time.Sleep"] = func(p *Path, fn *ssa.Function, a []Value, pos token.Pos, caller *ssa.Function) []Value { return nil }
 }
